@@ -76,11 +76,12 @@ static long long rank_of(const Universe &u, int idx) {
 }
 
 struct Op { int kind; int key; int flag; };
-// kinds: 0 insert, 1 remove(dispose=!flag), 2 find, 3 lower, 4 clear(no_dispose=flag), 5 iterate
-static const char *op_names[] = {"insert", "remove", "find", "lower", "clear", "iterate"};
+// kinds: 0 insert, 1 remove(dispose=!flag), 2 find, 3 lower, 4 clear(no_dispose=flag), 5 iterate,
+//        6 insert a recycled node: one that was taken out with no_dispose and still carries its old links
+static const char *op_names[] = {"insert", "remove", "find", "lower", "clear", "iterate", "reinsert"};
 
 struct Counters {
-    long cases = 0, ops = 0, nontrivial = 0, audits = 0, replaced = 0, absent_lookup = 0, removes_hit = 0, lower_calls = 0, clears = 0;
+    long cases = 0, ops = 0, nontrivial = 0, audits = 0, replaced = 0, absent_lookup = 0, removes_hit = 0, lower_calls = 0, clears = 0, recycled = 0;
     long per_cmp[4] = {0, 0, 0, 0};
     long extreme_int_cases = 0;
     std::set<size_t> nt_hashes;
@@ -96,6 +97,7 @@ struct Harness {
     int next_id = 1;
     int max_size = 0; bool interleaved = false; bool absent = false; bool removed_any = false;
     std::vector<void *> ptr_nodes_by_key;    // for CMP_PTR: the node that *is* the key
+    std::map<int, struct set_node *> recycled;  // key index -> node removed with no_dispose (links untouched)
 
     Harness(const Universe &uu) : u(uu) {
         memset(&st, 0, sizeof(st));
@@ -107,6 +109,7 @@ struct Harness {
     ~Harness() {
         // free whatever is still allocated without going through the SUT
         if (u.cmp != CMP_PTR) for (auto &kv : nodes) free(kv.second);
+        if (u.cmp != CMP_PTR) for (auto &kv : recycled) free(kv.second);
     }
     void fail(const std::string &m) { if (g_fail.empty()) g_fail = m; }
 
@@ -183,7 +186,11 @@ struct Harness {
             if (old) {
                 C.removes_hit++; removed_any = true;
                 expect_cleanups(old, op.flag ? 0 : 1, op.flag ? "remove with no_dispose" : "remove with disposal");
-                if (op.flag) { if (u.cmp != CMP_PTR) free(nodes[old]); }
+                if (op.flag && u.cmp != CMP_PTR) {
+                    int kidx = id_key[old];
+                    if (recycled.count(kidx)) free(recycled[kidx]);
+                    recycled[kidx] = nodes[old];       // the caller owns it again; links are left as they are
+                }
                 nodes.erase(old);
                 model.erase(r);
             } else { absent = true; C.absent_lookup++; }
@@ -212,13 +219,36 @@ struct Harness {
             set_clear(&st, op.flag);
             for (int id : ids) {
                 expect_cleanups(id, op.flag ? 0 : 1, op.flag ? "clear with no_dispose" : "clear with disposal");
-                if (op.flag && u.cmp != CMP_PTR) free(nodes[id]);
+                if (op.flag && u.cmp != CMP_PTR) {
+                    int kidx = id_key[id];
+                    if (recycled.count(kidx)) free(recycled[kidx]);
+                    recycled[kidx] = nodes[id];
+                }
                 nodes.erase(id);
             }
             model.clear();
             break;
         }
         case 5: break;   // iteration is part of every audit
+        case 6: {
+            // re-insert a node that was taken out with no_dispose (as config.c does when it splices nodes
+            // between trees); its l/r/prev/next still hold whatever they held when it left the set
+            if (u.cmp == CMP_PTR) break;
+            int kidx = -1;
+            for (auto &kv : recycled) { if (rank_of(u, kv.first) == r) { kidx = kv.first; break; } }
+            if (kidx < 0) { if (recycled.empty()) break; kidx = recycled.begin()->first; r = rank_of(u, kidx); }
+            struct set_node *n = recycled[kidx];
+            recycled.erase(kidx);
+            int id = next_id++;
+            ((Elem *)set_node_data(n))->id = id;
+            int old = model.count(r) ? model[r] : 0;
+            set_insert(&st, n);
+            nodes[id] = n; id_key[id] = kidx;
+            if (old) { C.replaced++; expect_cleanups(old, 1, "reinsert replacing an equal key"); nodes.erase(old); }
+            model[r] = id;
+            C.recycled++;
+            break;
+        }
         }
         if ((int)model.size() > max_size) max_size = (int)model.size();
         audit();
@@ -340,10 +370,10 @@ static Universe make_universe(Cmp cmp, const std::vector<int> &raw) {
 // ---------------------------------------------------------------- modes
 static void print_json(const char *mode, bool ok, long states, const std::string &samples) {
     printf("{\"mode\":\"%s\",\"ok\":%s,\"cases\":%ld,\"ops\":%ld,\"nontrivial\":%ld,\"audits\":%ld,\"replaced\":%ld,"
-           "\"absent_lookup\":%ld,\"removes_hit\":%ld,\"lower_calls\":%ld,\"clears\":%ld,\"per_cmp\":{\"int\":%ld,\"charp\":%ld,\"voidp\":%ld,\"ptr\":%ld},"
+           "\"absent_lookup\":%ld,\"removes_hit\":%ld,\"lower_calls\":%ld,\"clears\":%ld,\"recycled\":%ld,\"per_cmp\":{\"int\":%ld,\"charp\":%ld,\"voidp\":%ld,\"ptr\":%ld},"
            "\"states\":%ld,\"samples\":[%s]}\n",
            mode, ok ? "true" : "false", C.cases, C.ops, C.nontrivial, C.audits, C.replaced, C.absent_lookup, C.removes_hit,
-           C.lower_calls, C.clears, C.per_cmp[0], C.per_cmp[1], C.per_cmp[2], C.per_cmp[3], states, samples.c_str());
+           C.lower_calls, C.clears, C.recycled, C.per_cmp[0], C.per_cmp[1], C.per_cmp[2], C.per_cmp[3], states, samples.c_str());
 }
 
 static std::string json_escape(const std::string &s) {
@@ -361,7 +391,7 @@ static int mode_rc(int ncases, int maxsize, const char *failpath) {
         std::vector<int> raw = *rc::gen::resize(64, rc::gen::container<std::vector<int>>(nkeys, rc::gen::inRange(0, 1 << 20)));
         Universe u = make_universe((Cmp)cmp, raw);
         int nk = (int)u.size();
-        auto opgen = rc::gen::map(rc::gen::tuple(rc::gen::weightedElement<int>({{8, 0}, {5, 1}, {4, 2}, {4, 3}, {1, 4}, {1, 5}}),
+        auto opgen = rc::gen::map(rc::gen::tuple(rc::gen::weightedElement<int>({{8, 0}, {5, 1}, {4, 2}, {4, 3}, {1, 4}, {1, 5}, {2, 6}}),
                                                  rc::gen::inRange(0, nk), rc::gen::inRange(0, 4)),
                                   [](const std::tuple<int, int, int> &t) { return Op{std::get<0>(t), std::get<1>(t), std::get<2>(t) == 0 ? 1 : 0}; });
         std::vector<Op> ops = *rc::gen::container<std::vector<Op>>(opgen);
@@ -395,6 +425,7 @@ static int mode_bfs(int nkeys, const char *failpath) {
     for (int k = 1; k <= 2 * nkeys; k += 2) { candidates.push_back({0, k, 0}); candidates.push_back({1, k, 0}); candidates.push_back({1, k, 1}); }
     for (int k = 0; k <= 2 * nkeys; k++) { candidates.push_back({2, k, 0}); candidates.push_back({3, k, 0}); }
     candidates.push_back({4, 0, 0}); candidates.push_back({4, 0, 1});
+    for (int k = 1; k <= 2 * nkeys; k += 2) candidates.push_back({6, k, 0});
     while (!queue.empty() && ok) {
         std::string cur = queue.front(); queue.pop_front();
         std::vector<Op> path = seen[cur];
@@ -435,7 +466,7 @@ static int mode_replay(const char *path) {
                 size_t pos = 1; while (pos <= rest.size()) { size_t e = rest.find(' ', pos); if (e == std::string::npos) e = rest.size(); u.strs.push_back(rest.substr(pos, e - pos)); pos = e + 1; } }
             else { long v; while (is >> v) u.ptrs.push_back(g_arena + v); }
         } else {
-            for (int i = 0; i < 6; i++) if (w == op_names[i]) { Op o; o.kind = i; is >> o.key >> o.flag; ops.push_back(o); }
+            for (int i = 0; i < 7; i++) if (w == op_names[i]) { Op o; o.kind = i; is >> o.key >> o.flag; ops.push_back(o); }
         }
     }
     bool ok = run_ops(u, ops, true);
